@@ -5,7 +5,10 @@ import sys
 
 from . import env
 
-EVID_DIR = os.path.join(env.VERIF_DIR, 'evidence')
+# runs against a scratch copy (sensitivity / seeded-change runs) must not overwrite
+# the committed evidence, which has to come from /repo itself
+EVID_DIR = (os.path.join(env.VERIF_DIR, 'evidence') if env.REPO_DIR == '/repo'
+            else os.path.join(env.WORK_DIR, 'evidence-scratch'))
 
 
 def versions():
